@@ -280,7 +280,7 @@ def run(tier, seed):
               B.Bivariate._compute_theta, Clayton.compute_theta, Gumbel.compute_theta, Frank.compute_theta)
     ck.stubs = ['kendalltau / least_squares / quad as in C10', 'the rank-sum scoring is abstracted: any candidate may win (nondeterministic choice)',
                 'np.empty: havoc; np.random: RNG model (any draw is a finding)']
-    cases = [(2, 2, False, 300), (2, 2, True, 300)] if tier == 'quick' else [(2, 2, False, 900), (2, 2, True, 900), (3, 2, False, 1500), (2, 3, False, 1500)]
+    cases = [(2, 2, False, 300), (2, 2, True, 300)] if tier == 'quick' else [(2, 2, False, 1500), (2, 2, True, 1500)]  # rows=3 or a 3-point grid did not finish within 25 min (measured); not claimed
     ck.bounds = {'rows': sorted({c[0] for c in cases}), 'COMPUTE_EMPIRICAL_STEPS': sorted({c[1] for c in cases}) ,
                  'values': 'any reals in [0,1] (ties allowed)', 'tau': 'any real in [-1,1]'}
     ck.outside = ['"returns the generating family with high probability" (statistical) and therefore the scoring formulas themselves',
